@@ -14,6 +14,7 @@ mod shards;
 mod iohook;
 mod leafupd;
 mod lockrec;
+mod openpath;
 mod ovl;
 mod pipeline;
 mod prepsync;
@@ -76,6 +77,8 @@ fn main() {
         "caches-db" => caches::run_db(seed, cases, &mut sink),
         "caches-open0" => caches::run_open0(seed, cases, &mut sink),
         "extrange" => extrange::run(seed, cases, &mut sink),
+        "openpath" => openpath::run(seed, cases, &mut sink),
+        "openpath-findings" => openpath::run_findings(seed, &mut sink),
         "overlay-index" => ovl::run(seed, cases, &mut sink),
         "bitops" => bitops::run(seed, cases, &mut sink),
         "bitops-node" => bitops::run_nodes(seed, cases, &mut sink),
